@@ -198,6 +198,14 @@ var c06Invalid = []struct {
 	{"changelog-dangling", []string{"deb", "rpm"}, func(env *engine.Env, d fixture.Doc, f string) { d["changelog"] = tree(env).P("no-such-changelog.yaml") }},
 	{"changelog-malformed", []string{"deb", "rpm"}, func(env *engine.Env, d fixture.Doc, f string) { d["changelog"] = tree(env).P("etc/app.conf") }},
 	{"name-empty", Formats, func(env *engine.Env, d fixture.Doc, f string) { d["name"] = "" }},
+	{"content-collision-same-source", Formats, func(env *engine.Env, d fixture.Doc, f string) {
+		d["contents"] = []any{map[string]any{"src": tree(env).P("etc/app.conf"), "dst": "/x", "file_info": map[string]any{"mode": 0o600}},
+			map[string]any{"src": tree(env).P("etc/app.conf"), "dst": "/x", "type": "config|noreplace", "file_info": map[string]any{"mode": 0o644, "owner": "app"}}}
+	}},
+	{"content-collision-glob-and-file", Formats, func(env *engine.Env, d fixture.Doc, f string) {
+		d["contents"] = []any{map[string]any{"src": tree(env).P("etc/conf.d/*.conf"), "dst": "/etc/conf.d"},
+			map[string]any{"src": tree(env).P("etc/conf.d/a.conf"), "dst": "/etc/conf.d/a.conf", "type": "config"}}
+	}},
 	{"content-collision", Formats, func(env *engine.Env, d fixture.Doc, f string) {
 		d["contents"] = []any{map[string]any{"src": tree(env).P("etc/app.conf"), "dst": "/x"}, map[string]any{"src": tree(env).P("etc/empty"), "dst": "/x"}}
 	}},
